@@ -176,6 +176,7 @@ def check(A):
     # what the asyncio server is handed must be what the threaded one is handed
     R.asgi_body_rule(A, 'C18')
     R.limit_sites_rule(A, 'C18')
+    R.driver_fifo_rule(A, 'C18')
     for fl in S.FLAVOURS:
         S.receive_table(A, fl, 'C18')
         S.close_once(A, fl, 'C18')
